@@ -120,7 +120,7 @@ def vjp(out, g, x):
     outs = list(zip(out.ravel(), g.ravel()))
     for k in np.ndindex(*x.shape):
         acc = S(ZERO); memo = {}
-        for o, gi in outs: acc = acc + gi * dS(o, x[k].n, memo)
+        for o, gi in outs: acc = acc + gi * dS(S.of(o), x[k].n, memo)
         res[k] = acc
     return res
 def prove(name, impl, spec, pre=(), timeout=60000, rel=()):
